@@ -10,7 +10,7 @@ from ..core import AnalysisError, const_value
 from ..defuse import DefUse, Terms, show, walk_term
 from ..defuse import key as tkey
 from ..tutil import (base_of, bound_args, callee_of, lin, norm_calls,
-                     np_call, strip_conv, subst_params)
+                     np_call, strip_conv, strip_materialise, subst_params)
 
 EXPLANATION = (
     "Static analysis of brew.make_train_sets, brew.brew, brew._predict, "
@@ -784,7 +784,8 @@ def _parse_in_chunks(ctx):
     TRAIN = None
     ZT = ("call", "builtins.zip", (("star", ("param", p_tr)),), ())
     if len(task) == 1:
-        b = {k: pT.of(v) for k, v in prog.bind(g, task[0]).items()}
+        b = {k: strip_materialise(pT.of(v))
+             for k, v in prog.bind(g, task[0]).items()}
         ti, tp, tf = b.get(p_idx), b.get(p_psms), b.get(p_file)
         TRAIN = b.get(p_train)
         why = str({k: show(v, 80) for k, v in b.items()})
@@ -807,7 +808,7 @@ def _parse_in_chunks(ctx):
               "(zip(*train_idx) transposes [fold][file] to [file][fold])",
               "the pairing of files, index lists and file numbers changed: "
               + why, node=task[0] if task else pic.node)
-    rets = [t for _r, t in pT.returns()]
+    rets = [strip_materialise(t) for _r, t in pT.returns()]
     ok_r = False
     if len(rets) == 1 and rets[0][0] == "comp" and len(rets[0][3]) == 1 \
             and not rets[0][3][0][2]:
